@@ -5,6 +5,9 @@
    `RunCommand().execute` -- on the real code and logs one event per Persist
    action, together with what it observed:
       files   the classification of every task's file after the event
+              (`unreadable`: the path of the file cannot be used, for any
+              of the reasons listed in Persist.tla -- real ones and errno
+              classes simulated by the harness)
       raised, env / present, status, ver   the outcome of a read.
    Every event is matched against the corresponding action of Persist; what
    Persist leaves open (order of the entries, writing in place or through a
